@@ -6,13 +6,15 @@
 (* Setup fields (the abstract machine state, chosen by the generator):     *)
 (*   w, h      booted dimensions (sv.p2p_dims)                             *)
 (*   grid      grid[x+1][y+1] = 0 (no such chip), -1 (in the P2P table but *)
-(*             never answers) or k > 0 (chips[k] is that chip)             *)
+(*             never answers), -2 (in the P2P table, the Ethernet chip's   *)
+(*             monitor answers for it with a fatal return code) or k > 0   *)
+(*             (chips[k] is that chip)                                     *)
 (*   chips     records x, y, nc, states, links, sdram, sram, rtr, eth, ip, *)
 (*             leth  (see Probe.tla)                                       *)
 (*   ver       legacy, major, minor, patch, labels, name, bufsize, date,   *)
 (*             pcpu (18 physical core numbers), nul                        *)
 (*   chips[i].vbase  address of that chip's per-core status blocks;       *)
-(*   iobuf_size                                                           *)
+(*   chips[i].isz    size of one console buffer block on that chip        *)
 (*   vcpus     planted status blocks   [x, y, p, bytes]                    *)
 (*   blocks    planted console blocks  [x, y, addr, next, time, ms, len,   *)
 (*             data]                                                       *)
@@ -36,6 +38,15 @@
 (*   <<"targets", l>>             build_routing_table_target_lengths       *)
 (*   <<"status", x, y, p, rec>>, <<"iobuf", x, y, p, bytes>>,              *)
 (*   <<"diag", x, y, pairs>>, <<"version", x, y, p, rec>>                  *)
+(*   <<"sys_chips", l>>           SystemInfo.chips()                       *)
+(*   <<"chipq", kind, x, y, answer>>  a single-chip question: "links"      *)
+(*             get_working_links, "ncores" get_num_working_cores, "ip"     *)
+(*             get_ip_address (<<>> for None), "info" get_chip_info (a     *)
+(*             "chip" event as the answer)                                 *)
+(*   <<"change", recs>>           the machine changes: the chips named in  *)
+(*             recs (records like chips[i]) are from now on in the state   *)
+(*             recs gives (environment; everything after it is judged      *)
+(*             against the machine as it is then)                          *)
 (*   <<"raise", class>>, <<"end">>                                         *)
 (* State st: desc (responding chip -> record), seen (chips reported by the *)
 (* discovery in progress), done (result events so far).                    *)
@@ -59,9 +70,12 @@ Pairs(q) == { <<t[1], t[2]>> : t \in SeqSet(q) }
 NoDup(q) == Cardinality(SeqSet(q)) = Len(q)
 
 \* ------------------------------------------------------------------ the environment
+SvNumCpus == AddH(SvBase, 188)       \* byte 0xbc: number of working cores
+\* no route, no reply to open, open rejected, Ethernet chip <-> target time-out
+Refusals == { <<135>>, <<139>>, <<140>>, <<142>> }
 Regions(x, y) ==
-    { <<SvP2PDims, LE2(Tr.w * 256 + Tr.h)>>, <<SvIobufSz, HalvesToBytes(<<0, Tr.iobuf_size>>)>>,
-      <<SvVcpuBase, HalvesToBytes(Tr.chips[GridCode(x, y)].vbase)>> }
+    { <<SvP2PDims, LE2(Tr.w * 256 + Tr.h)>>, <<SvIobufSz, HalvesToBytes(<<0, Tr.chips[GridCode(x, y)].isz>>)>>,
+      <<SvVcpuBase, HalvesToBytes(Tr.chips[GridCode(x, y)].vbase)>>, <<SvNumCpus, <<st.desc[<<x, y>>].nc>> >> }
     \cup { <<VcpuAddr(Tr.chips[GridCode(x, y)].vbase, v.p), v.bytes>> : v \in { u \in SeqSet(Tr.vcpus) : u.x = x /\ u.y = y } }
     \cup { <<blk.addr, BlockBytes(blk)>> : blk \in { u \in SeqSet(Tr.blocks) : u.x = x /\ u.y = y } }
     \cup { <<RtrDiag, CounterBytes(d.words)>> : d \in { u \in SeqSet(Tr.diags) : u.x = x /\ u.y = y } }
@@ -89,6 +103,7 @@ EnvChecks(e) ==
         code == GridCode(x, y)
     IN IF code = 0 THEN [EnvNoSuchChipDoesNotAnswerOK |-> rc # <<128>>]
        ELSE IF code = -1 THEN [EnvUnresponsiveChipIsSilent |-> rc = <<>>]
+       ELSE IF code = -2 THEN [EnvUnreachableChipIsRefused |-> rc \in Refusals /\ ra = <<>> /\ rd = <<>>]
        ELSE CASE cmd = 31 ->
                    [EnvInfoReplyEncodesState |->
                        /\ rc = <<128>> /\ Len(ra) = 3 /\ Len(rd) = 24
@@ -114,20 +129,35 @@ Planned == [AsPlanned |-> Len(st.done) < Len(Tr.plan) /\ Tr.plan[Len(st.done) + 
 VcpuOf(x, y, p) == (CHOOSE v \in SeqSet(Tr.vcpus) : v.x = x /\ v.y = y /\ v.p = p).bytes
 BlocksOf(x, y) == { u \in SeqSet(Tr.blocks) : u.x = x /\ u.y = y }
 Resv(cn) == <<cn[3], cn[4], cn[6]>>
+\* e: a "chip" event (one ChipInfo), c: the record of that chip
+ChipClauses(e, c) ==
+    [CoreCountsTrue  |-> e[4] = c.nc,
+     CoreStatesTrue  |-> e[5] = c.states,
+     WorkingLinksTrue |-> SeqSet(e[6]) = c.links /\ NoDup(e[6]),
+     FreeMemoryTrue  |-> e[7] = c.sdram /\ e[8] = c.sram,
+     RouterBlocksTrue |-> e[9] = c.rtr,
+     EthernetTrue    |-> e[10] = c.eth /\ e[12] = c.leth /\ (c.eth => e[11] = IpString(c.ip))]
 Checks(e) ==
   CASE e[1] = "probe" -> [ProbeFromRespondingChip |-> GridCode(e[2], e[3]) > 0]
     [] e[1] = "scp" -> EnvChecks(e)
     [] e[1] = "chip" ->
         LET xy == <<e[2], e[3]>> IN
         IF xy \notin DOMAIN st.desc THEN [ChipsExactlyResponding |-> FALSE]
-        ELSE LET c == st.desc[xy] IN
-             [ChipsExactlyResponding |-> xy \notin st.seen,
-              CoreCountsTrue  |-> e[4] = c.nc,
-              CoreStatesTrue  |-> e[5] = c.states,
-              WorkingLinksTrue |-> SeqSet(e[6]) = c.links /\ NoDup(e[6]),
-              FreeMemoryTrue  |-> e[7] = c.sdram /\ e[8] = c.sram,
-              RouterBlocksTrue |-> e[9] = c.rtr,
-              EthernetTrue    |-> e[10] = c.eth /\ e[12] = c.leth /\ (c.eth => e[11] = IpString(c.ip))]
+        ELSE [ChipsExactlyResponding |-> xy \notin st.seen] @@ ChipClauses(e, st.desc[xy])
+    [] e[1] = "chipq" ->
+        LET xy == <<e[3], e[4]>>  ans == e[5] IN
+        Planned @@
+        (IF xy \notin DOMAIN st.desc THEN [QuestionAboutRespondingChip |-> FALSE]
+         ELSE LET c == st.desc[xy] IN
+              CASE e[2] = "links" -> [WorkingLinksTrue |-> SeqSet(ans) = c.links /\ NoDup(ans)]
+                [] e[2] = "ncores" -> [CoreCountsTrue |-> ans = c.nc]
+                [] e[2] = "ip" -> [EthernetTrue |-> ans = IF c.eth THEN <<IpString(c.ip)>> ELSE <<>>]
+                [] e[2] = "info" -> [ChipsExactlyResponding |-> <<ans[2], ans[3]>> = xy] @@ ChipClauses(ans, c)
+                [] OTHER -> [UnknownQuestion |-> FALSE])
+    [] e[1] = "change" ->
+        [ChangeIsOfRespondingChips |-> \A i \in 1..Len(e[2]) : <<e[2][i].x, e[2][i].y>> \in DOMAIN st.desc]
+    [] e[1] = "sys_chips" ->
+        Planned @@ [ChipsExactlyResponding |-> Pairs(e[2]) = DOMAIN st.desc /\ NoDup(e[2])]
     [] e[1] = "sysinfo" ->
         Planned @@
         [ChipsExactlyResponding |-> st.seen = DOMAIN st.desc,
@@ -206,6 +236,10 @@ Apply(e) ==
     CASE e[1] = "probe" -> [st EXCEPT !.seen = {}]
       [] e[1] = "chip" -> [st EXCEPT !.seen = @ \cup {<<e[2], e[3]>>}]
       [] e[1] \in {"scp", "end", "raise"} -> st
+      [] e[1] = "change" ->
+           LET new == [xy \in { <<e[2][i].x, e[2][i].y>> : i \in 1..Len(e[2]) } |->
+                          RecOf(e[2][CHOOSE i \in 1..Len(e[2]) : <<e[2][i].x, e[2][i].y>> = xy])]
+           IN [st EXCEPT !.desc = new @@ st.desc]
       [] OTHER -> [st EXCEPT !.done = Append(@, e[1])]
 
 Bad == LET ck == Checks(Ev) IN {c \in DOMAIN ck : ~ck[c]}
